@@ -232,4 +232,9 @@ package rhp
 //@   ensures [released-on-error] result1 != nil && called("FundV2Transaction") && callres("FundV2Transaction", 2) == nil ==> mayHaveCalled("ReleaseInputs")
 //@ func RPCFormContract props C16
 //@   requires t != nil && tp != nil && signer != nil
+// on success the renter returns the contract it built and signed itself, completed with the host's
+// verified signature -- not whatever contract the host's final message carries (a transaction id
+// does not cover signatures)
+//@   ensures [own-contract] result1 == nil ==> called("SignHash") && result0.Contract.Revision.RenterSignature == callres("SignHash")
+//@        && called("VerifyHash") && callres("VerifyHash") && callarg("VerifyHash", 2) == result0.Contract.Revision.HostSignature
 //@   ensures [released-on-error] result1 != nil && called("FundV2Transaction") && callres("FundV2Transaction", 2) == nil ==> mayHaveCalled("ReleaseInputs")
